@@ -74,7 +74,7 @@ func genC11(seed uint64, tier string) *Scenario {
 			sc.Ops = append(sc.Ops, Op{K: "chg", N: []uint64{acct, v, uint64(r.Intn(3))}})
 		case x == 14:
 			// offset out of range / beyond 2^64
-			sc.Ops = append(sc.Ops, Op{K: "badoff", N: []uint64{acct, v, uint64(r.Intn(3))}})
+			sc.Ops = append(sc.Ops, Op{K: "badoff", N: []uint64{acct, v, uint64(r.Intn(12))}})
 		case x == 15:
 			// change for a key that is in nobody's catalogue
 			sc.Ops = append(sc.Ops, Op{K: "ghost", N: []uint64{acct, uint64(900 + r.Intn(3)), uint64(r.Intn(3))}})
@@ -214,8 +214,16 @@ func c11Run(sc *Scenario, st *Stats) []Violation {
 			case "badoff":
 				cv := catalogue[op.N[1]]
 				off := uint256.NewInt(32 + op.N[2])
-				if op.N[2] == 2 {
+				switch op.N[2] {
+				case 2:
 					off = new(uint256.Int).Lsh(uint256.NewInt(1), 64)
+				case 3, 4, 5, 6, 7, 8, 9:
+					// values whose low byte or low 64 bits look like a valid offset
+					off = uint256.NewInt([]uint64{255, 256, 256 + cv.offset, 287, 512 + 5, 65536, 1<<32 + 1}[op.N[2]-3])
+				case 10:
+					off = uint256.NewInt(^uint64(0))
+				case 11:
+					off = new(uint256.Int).Add(new(uint256.Int).Lsh(uint256.NewInt(1), 64), uint256.NewInt(cv.offset))
 				}
 				if err := tr.SaveStateChange(acct, uint256.NewInt(cv.slot), off, common.BytesToHash([]byte(cv.typ)), val); err == nil {
 					add(step, "C11.change", "bad-offset-accepted", "change with offset %s was accepted", off.Hex())
